@@ -639,3 +639,36 @@ def hip_calculate(job):
         sys.argv = stash[1]
         with contextlib.suppress(OSError):
             path.unlink()
+
+
+# ---------------------------------------------------------------------------------------------------------
+# secondary validators (range_check / verify methods called from Calculate) after a module read
+# ---------------------------------------------------------------------------------------------------------
+VALIDATORS = ('range_check', 'verify')
+
+
+def observe_validator(pkg, cls, model, name, s, method):
+    """read_parameters of a fresh instance with only `name` given, then the class's own secondary validator.
+    -> ('read', text) | ('n/a', text: the validator cannot run without a full Calculate) | ('rejected', text) | ('ok', value held)"""
+    import inspect
+    from geophires_x.Parameter import ParameterEntry
+    o = paramtable.instantiate(pkg, cls, model)
+    out = io.StringIO()
+    try:
+        with contextlib.redirect_stdout(out):
+            model.InputParameters = {name: ParameterEntry(Name=name, sValue=s, raw_entry=f'{name}, {s}')} if name else {}
+            try:
+                o.read_parameters(model)
+            except Exception as e:  # noqa
+                return ('read', f'{type(e).__name__}: {e}'[:160])
+            fn = getattr(o, method)
+            try:
+                res = fn(model) if len(inspect.signature(fn).parameters) else fn()
+            except Exception as e:  # noqa
+                return ('n/a', f'{type(e).__name__}: {e}'[:160])
+    finally:
+        model.InputParameters = {}
+    flag = res[0] if isinstance(res, tuple) else res
+    if flag:
+        return ('rejected', (res[1] if isinstance(res, tuple) and len(res) > 1 else out.getvalue().strip())[:200])
+    return ('ok', stored_value(name, o.ParameterDict[name], s) if name else None)
